@@ -118,6 +118,31 @@ def judge_version_spellings(version):
     return out, n
 
 
+def judge_config_reuse(va, vb, order):
+    """ONE configuration object: a sampler A is built for version va, the configuration's table version is set to vb in
+    place, a sampler B is built; then both are used in `order`. B -- built and used under vb -- reproduces the nodes of
+    table vb. (A, built under va and used while the configuration says vb, may answer with either table: the unchanged
+    tree reads the tables at construction.)"""
+    from nuspacesim.config import NssConfig, Simulation
+    from nuspacesim.simulation.taus.taus import Taus
+
+    cfg = NssConfig(simulation=Simulation(tau_shower=Simulation.NuPyPropShower(table_version=str(va))))
+    A = Taus(cfg)
+    cfg.simulation.tau_shower.table_version = str(vb)
+    B = Taus(cfg)
+    out = []
+    for who in order:
+        if who == "A":
+            r = [judge_nodes(v, A)[0] for v in (va, vb)]
+            if all(r):
+                out.append(("table_of_the_configured_version", f"sampler built for version {va} (configuration now {vb}), used {order}: nodes of table {va} or {vb}", f"neither (node {r[0][0][1]}: {r[0][0][3]!r})"))
+        else:
+            r = judge_nodes(vb, B)[0]
+            if r:
+                out.append(("table_of_the_configured_version", f"sampler built and used under version {vb} after one built for {va} on the same configuration object, used {order}: node {r[0][1]} = {r[0][2]!r}", r[0][3]))
+    return out
+
+
 def judge_rejected(version, le):
     t = taus(version)
     try:
@@ -217,8 +242,20 @@ def judge_call_forms(version):
     return out
 
 
+def _reuse_job(a):
+    return judge_config_reuse(*a)
+
+
 def run(ctx):
-    from .. import forms, pipeline
+    from .. import forms, par, pipeline
+
+    # first, before this process has built a sampler of its own: each history in a forked child of its own, so that
+    # nothing class- or module-level that another history (or this check) filled in can stand in for a missing table
+    jobs = [(va, vb, order) for va, vb in ((3, 1), (1, 3), (2, 3), (3, 2), (1, 2)) for order in (("A", "B"), ("B", "A"), ("B",), ("A", "B", "A", "B"))]
+    for (va, vb, order), v in zip(jobs, par.pmap_isolated(_reuse_job, jobs)):
+        ctx.tick(2 * len(order), ("config_reuse", va, vb, order))
+        for c, e, o in v:
+            ctx.violation(c, {"kind": "config_reuse", "va": va, "vb": vb, "order": list(order)}, e, o)
 
     for ver in (1, 2, 3):
         v, n = judge_version_spellings(ver)
@@ -333,6 +370,8 @@ def replay(case):
         return judge_forms(case["version"], case["forms"])
     if k == "call_forms":
         return judge_call_forms(case["version"])
+    if k == "config_reuse":
+        return judge_config_reuse(case["va"], case["vb"], tuple(case["order"]))
     if k == "version_spellings":
         return judge_version_spellings(case["version"])[0]
     if k == "node":
